@@ -288,6 +288,34 @@ Section C10.
     - apply Forall_map, Forall_forall. intros b _. f_equal. apply first_reject_ext. intros. apply Hi.
   Qed.
 
+  (* the exact guard under which one validation decides: the path validates in the caller's context only, or
+     the checker's verdict on the annotations of THIS class does not depend on the caller's locals *)
+  Definition ctx_irrelevant (C : chain) (v : via) : Prop :=
+    (forall b, In b (vis_list (resolve_pi P C) v 0) -> b = true) \/
+    (forall f, In f (dc_fields C) -> forall h x, check false h (f_ann f) x = check true h (f_ann f) x).
+
+  Lemma first_reject_ext_fields : forall c1 c2 h fs r,
+    (forall f, In f fs -> forall x, c1 h (f_ann f) x = c2 h (f_ann f) x) ->
+    first_reject c1 h fs r = first_reject c2 h fs r.
+  Proof.
+    intros c1 c2 h fs r. induction fs as [|f fs IH]; intro H; simpl; [reflexivity|].
+    destruct (getattr h r (f_name f)); [|reflexivity]. rewrite (H f (or_introl eq_refl)).
+    rewrite IH; [reflexivity|]. intros g Hg. apply H. now right.
+  Qed.
+
+  Lemma validations_guarded : forall C v h r, ctx_irrelevant C v -> is_new (resolve_pi P C) = true ->
+    validations C v h r = of_reject (first_reject (check true) h (dc_fields C) r).
+  Proof.
+    intros C v h r Hg Hn. unfold validations. apply first_raise_const.
+    - intro E. apply map_eq_nil in E. now apply vis_list_nonempty in E.
+    - apply Forall_map, Forall_forall. intros b Hb. f_equal. destruct Hg as [Hg|Hg].
+      + now rewrite (Hg b Hb).
+      + destruct b; [reflexivity|]. apply first_reject_ext_fields. intros f Hf x. now apply Hg.
+  Qed.
+
+  Lemma vis_indep_irrelevant : forall C v, vis_indep -> ctx_irrelevant C v.
+  Proof. intros C v Hi. right. intros f _ h x. apply Hi. Qed.
+
   (* ---- validate_types called by the user (context = the caller's frame) *)
   Lemma validate_outcome : forall vis C r st, nearest_deco C <> None ->
     exists checks, forallb is_check checks = true /\
